@@ -83,10 +83,11 @@ Section DNS.
   Proof. intros. eapply seq_lookup_result; eauto. Qed.
 End DNS.
 
-(* degenerate configuration: size 0 makes every insertion spin (noted, not a violation of the
-   property, which speaks of a configured size) *)
-Theorem dns_size_zero_spins : forall dur t h a es, insert_section 0 dur t h a es = None.
-Proof. exact size_zero_spins. Qed.
+(* size 0 (the zero value of an unset configuration field; negative sizes are treated alike):
+   since the repair of F94 such a cache holds nothing and never spins, in every reachable state *)
+Theorem dns_size_zero_caches_nothing : forall dur strict t0 s,
+  reachable 0 dur strict t0 s -> entries s = [] /\ spinning s = false.
+Proof. exact size_zero_caches_nothing. Qed.
 
 Open Scope N_scope.
 
@@ -212,7 +213,7 @@ Print Assumptions dns_eviction_terminates.
 Print Assumptions no_deadlock_model.
 Print Assumptions dns_sequential_refinement.
 Print Assumptions dns_sequential_semantics_same.
-Print Assumptions dns_size_zero_spins.
+Print Assumptions dns_size_zero_caches_nothing.
 Print Assumptions fetch_keys_union.
 Print Assumptions fetch_keys_any_merge_order.
 Print Assumptions fetch_keys_results_disjoint.
